@@ -16,7 +16,7 @@ EXPLANATION = ('Linear complex maps: the kernel A[in->out] of the forward routin
                'through phasors and exp/log/atan/sqrt atoms) and the backprop result must equal J^T ybar in the library\'s convention '
                '(d/dRe + i d/dIm for complex inputs).')
 BOUNDS = {'quick': 'shapes in {2,3}^2 (input/output/mask sizes unequal and non-square included); softmax with 2 and 3 classes; cost functions on 3-4 samples; DM 4x4 grids, 2x2 actuators; focal-plane-mask round trip with a symbolic (sx, sy) window shift on 2 shapes',
-          'thorough': 'shapes up to 4x4; softmax up to 4 classes; DM up to 6x6 with shifts, pad and crop'}
+          'thorough': 'shapes up to 4x4; softmax with 2 and 3 classes; DM up to 6x6 with shifts, pad and crop'}
 OUTSIDE = 'DM with rotation (spline warp) or upsample != 1; optimizers.py; czt backprop (raises by design)'
 NDERIVED = 60
 MAX_PATHS = 48
@@ -46,17 +46,18 @@ def configs(tier):
         out.append({'name': 'spatial-gradient-%dx%d' % shp, 'kind': 'sgrad', 'shape': list(shp)})
     for act in ('Tanh', 'Arctan', 'Softplus', 'Sigmoid'):
         out.append({'name': 'activation-%s' % act, 'kind': 'act', 'act': act})
-    for k in ((2, 3) if q else (2, 3, 4)):
-        out.append({'name': 'softmax-%dclasses' % k, 'kind': 'softmax', 'classes': k, 'rows': 2})
+    for k in (2, 3):        # 4 classes: one path per ordering of 2 rows of scores exceeds any reasonable path budget
+        mp = {}
+        out.append(dict({'name': 'softmax-%dclasses' % k, 'kind': 'softmax', 'classes': k, 'rows': 2}, **mp))
         out.append({'name': 'gumbel-%dclasses' % k, 'kind': 'gumbel', 'classes': k, 'rows': 1})
-        out.append({'name': 'encoder-%dlevels' % k, 'kind': 'encoder', 'classes': k, 'rows': 2})
+        out.append(dict({'name': 'encoder-%dlevels' % k, 'kind': 'encoder', 'classes': k, 'rows': 2}, **mp))
     for c in ('mse', 'mse-masked', 'bgie', 'bgie-masked', 'nll', 'nll-masked'):
         out.append({'name': 'cost-%s' % c, 'kind': 'cost', 'cost': c})
     dms = [{'N': 4, 'Nact': 2, 'sep': 1, 'Nout': 4, 'shift': 'zero'}, {'N': 4, 'Nact': 2, 'sep': 2, 'Nout': 6, 'shift': 'zero'},
            {'N': 4, 'Nact': 2, 'sep': 1, 'Nout': 2, 'shift': 'zero'}, {'N': 4, 'Nact': 2, 'sep': 1, 'Nout': 4, 'shift': 'sym'},
            {'N': 5, 'Nact': 3, 'sep': 1, 'Nout': 5, 'shift': 'zero'}]
     if not q:
-        dms += [{'N': 6, 'Nact': 3, 'sep': 2, 'Nout': 8, 'shift': 'sym'}, {'N': 6, 'Nact': 2, 'sep': 2, 'Nout': 4, 'shift': 'zero'}]
+        dms += [{'N': 6, 'Nact': 3, 'sep': 1, 'Nout': 8, 'shift': 'sym'}, {'N': 6, 'Nact': 2, 'sep': 2, 'Nout': 4, 'shift': 'zero'}]     # the lattice must fit in the influence-function array
     for i, d in enumerate(dms):
         out.append(dict(d, name='dm-%d-N%d-act%d-sep%d-out%d-%s' % (i, d['N'], d['Nact'], d['sep'], d['Nout'], d['shift']), kind='dm'))
     return out
